@@ -25,7 +25,10 @@ WIDE = {2: "é", 3: "€", 4: "\U0001F600"}
 # place for off-by-one errors), plus common scripts
 EDGE_CHARS = ["\u0080", "\u00ff", "\u0100", "\u03a9", "\u0400", "\u07ff", "\u0800", "\u0905", "\u0e01", "\u0fff", "\u1000",
               "\u1fff", "\u2000", "\u3042", "\u4e2d", "\u7fff", "\u8000", "\uac00", "\ud7ff", "\ue000", "\ufeff", "\uffff",
-              "\U00010000", "\U0001ffff", "\U00020000", "\U0003ffff", "\U00040000", "\U000fffff", "\U00100000", "\U0010ffff"]
+              "\U00010000", "\U0001ffff", "\U00020000", "\U0003ffff", "\U00040000", "\U000fffff", "\U00100000", "\U0010ffff",
+              # characters that attach to their neighbour when displayed (joiners, variation selectors, combining marks, modifiers):
+              # to the fold algorithm they are characters like any other
+              "\u200d", "\ufe0e", "\ufe0f", "\u0301", "\u20e3", "\U0001f3fb", "\U000e0020", "\u200c", "\u2060", "\u034f"]
 
 
 def check_folded(orig: str, out: bytes, clause="C06.line", require_final_crlf=False):
